@@ -371,7 +371,12 @@ func (p *Parser) parseInterfaceValue(call *ast.CallExpr, info *types.Info, fileP
 	if ident, ok := expr.(*ast.Ident); ok {
 		// The writer leaves a bare identifier in its place. That place must be the one inside its own
 		// file: where the loader put the file in its file set differs from run to run.
-		expr = &ast.Ident{NamePos: ident.NamePos - p.fileStart + 1, Name: ident.Name}
+		moved := &ast.Ident{NamePos: ident.NamePos - p.fileStart + 1, Name: ident.Name}
+		if obj := info.Uses[ident]; obj != nil {
+			// the copy stands for the same object: a name a dot import brought in is still to be qualified
+			info.Uses[moved] = obj
+		}
+		expr = moved
 	}
 
 	return &WireInterfaceValue{
